@@ -28,7 +28,7 @@
 // *receive* portion continues to work.
 
 use std::io::{self, Read, Write};
-use std::net::{IpAddr, SocketAddr, TcpStream};
+use std::net::{IpAddr, Shutdown, SocketAddr, TcpStream};
 use std::sync::Arc;
 use std::thread;
 use std::time::{Duration, Instant};
@@ -327,7 +327,7 @@ where
 
             // Response::None occurs when something was really
             // malformed, so close the connection.
-            Response::None => return Ok(()),
+            Response::None => return close_after_draining(&mut socket, &mut received_buf),
         };
 
         // We won't continue to service this connection if the TCP
@@ -344,6 +344,33 @@ where
             n_read = 0;
         }
     }
+}
+
+/// Closes a TCP connection without resetting it.
+///
+/// If the socket were simply dropped while data pipelined by the client
+/// is still unread (or still arriving), the operating system would
+/// reset the connection, and responses that we have already written but
+/// that have not yet reached the client would be destroyed. Instead, we
+/// close our sending side (the client sees the end of the stream after
+/// everything we wrote) and discard whatever the client sends until it
+/// closes its side too or [`READ_MESSAGE_TIMEOUT`](super::READ_MESSAGE_TIMEOUT)
+/// expires.
+fn close_after_draining(socket: &mut TcpStream, scratch_buf: &mut [u8]) -> io::Result<()> {
+    socket.shutdown(Shutdown::Write)?;
+    let deadline = Instant::now() + super::READ_MESSAGE_TIMEOUT;
+    while let Some(timeout) = compute_timeout(deadline).filter(|t| !t.is_zero()) {
+        socket.set_read_timeout(Some(timeout))?;
+        match socket.read(scratch_buf) {
+            Ok(0) => break,
+            Ok(_) => (),
+            Err(e) if e.kind() == io::ErrorKind::Interrupted => (),
+            Err(e) if e.kind() == io::ErrorKind::WouldBlock => break,
+            Err(e) if e.kind() == io::ErrorKind::TimedOut => break,
+            Err(e) => return Err(e),
+        }
+    }
+    Ok(())
 }
 
 /// The UDP receive/handle/send loop.
